@@ -34,6 +34,7 @@ def check(ctx):
   ctx.rule('C14.R5', 'wrap: TimeoutError untouched, otherwise ScalesError(inner, text) when a stack was captured; caller gets set_exception of it')
   ctx.decline('agreement with the Thrift library codec for every value (delegated to generated write/read) and processor-side decoding are not decided')
   r1(ctx)
+  wire.complete_write_rules(ctx, 'C14.R1')
   r2(ctx)
   r3(ctx)
   r4(ctx)
@@ -325,6 +326,23 @@ def r4(ctx):
   txt = U(f.node).replace(' ', '')
   ctx.ob('C14.R4', f, 'declared exceptions = thrift_spec[1:] by field name [2]', '[1:]' in txt and '[2]' in txt,
          'exception scan does not use thrift_spec[1:] / field index 2', 'spec entry 0 is the success field; index 2 of an entry is the attribute name')
+  # a void completion is reported only after the declared-exception fields were scanned
+  n_void = 0
+  okscan = True
+  for r, conds, calls, ev in rets:
+    m = mrm(r)
+    if m is None or m.args or m.keywords:
+      continue
+    if ('result', False) in conds or ('notresult', True) in conds:
+      continue            # no result struct at all (one-way / unknown method)
+    n_void += 1
+    no_spec = ('result_spec', False) in conds or ('notresult_spec', True) in conds
+    spec_iters = set(['result_spec[1:]'] + [U(st.targets[0]) for st in walk_no_nested(f.node) if isinstance(st, ast.Assign) and U(st.value).replace(' ', '') == 'result_spec[1:]'])
+    scanned = any(e.kind in ('for_done', 'for_iter') and U(e.node.iter).replace(' ', '') in spec_iters for e in ev)
+    okscan = okscan and (no_spec or scanned)
+  ctx.ob('C14.R4', f, 'void completion only after the declared-exception scan', okscan and n_void >= 1,
+         'a path returns an empty MethodReturnMessage for a present result struct without scanning thrift_spec[1:] (%d void paths)' % n_void,
+         'a void method that declares exceptions must raise a thrown declared exception, not complete with None')
   # a result class that exists is read before classification
   okread = all(any(call_attr(c) == 'read' for c in calls) for r, conds, calls, ev in rets
                if any(c.replace(' ', '') == 'result_cls' and t for c, t in POS(conds)))
